@@ -2,6 +2,7 @@ package simdrv
 
 import (
 	"fmt"
+	"sort"
 	"strings"
 
 	"verif.local/gcsim/simapi"
@@ -76,6 +77,24 @@ func (w *Worker) genC02(rc *simapi.RunConfig) {
 		wl = &Workload{EnableAll: true, Concurrency: 1 + r.Intn(16), Params: map[string]map[string]any{}}
 	} else {
 		wl = w.genWorkload(r, pkgs, true)
+	}
+	// the user rule files were written against the hand-written packages (rules that overlap
+	// on the same nodes, exact duplicate reports, same text at several positions): a
+	// workload that visits one of them always carries them
+	for _, p := range pkgs {
+		if isHandWritten(p) && p != probePkg {
+			if !wl.EnableAll && !contains(wl.Checkers, "ruleguard") {
+				wl.Checkers = append(wl.Checkers, "ruleguard")
+				sort.Strings(wl.Checkers)
+			}
+			if wl.Params["ruleguard"] == nil {
+				wl.Params["ruleguard"] = map[string]any{}
+			}
+			if _, ok := wl.Params["ruleguard"]["rules"]; !ok {
+				wl.Params["ruleguard"]["rules"] = rulesGlob()
+			}
+			break
+		}
 	}
 	rc.Args = wl.Args()
 	// variant 0 is the reference execution E(w, canonical, serial)
